@@ -12,6 +12,8 @@ import (
 
 	"github.com/dave/dst"
 	"github.com/dave/dst/decorator"
+	"github.com/dave/dst/decorator/resolver/goast"
+	"github.com/dave/dst/decorator/resolver/guess"
 
 	"verif/core"
 	"verif/gen"
@@ -39,7 +41,7 @@ func init() {
 		ID:    "C15",
 		Level: "model_checking",
 		Rule: "for every corpus template: every prefix and suffix, every single-byte insertion and substitution from a 20-byte alphabet at every offset, every token deleted / duplicated / swapped with its neighbour, every pair of token deletions; " +
-			"plus every string of <=5 (quick) / <=6 (thorough) lexemes over a 20-lexeme alphabet; each through decorator.Parse, and (all but the byte-edit and pair inputs) Decorator.ParseFile in 4 parser modes and decorator.ParseDir on a directory holding the input next to a valid file, and Fprint of every tree returned; " +
+			"plus every string of <=5 (quick) / <=6 (thorough) lexemes over a 20-lexeme alphabet; each through decorator.Parse, and (all but the byte-edit and pair inputs) Decorator.ParseFile in 4 parser modes and ParseDir (plain, and through a Decorator with the syntax-based resolver) on a directory holding the input next to a valid file, and Fprint of every tree returned; " +
 			"oracle: no panic escapes; state = distinct input; non-trivial = input rejected by go/parser (error paths)",
 		Assumptions:      []string{"corruptions are single/double edits of corpus files and short lexeme strings"},
 		CrashIsViolation: true,
@@ -223,6 +225,15 @@ func c15ParseDir(src string) {
 	defer os.RemoveAll(dir)
 	os.WriteFile(filepath.Join(dir, "a.go"), []byte(src), 0o644)
 	os.WriteFile(filepath.Join(dir, "b.go"), []byte("package a\n\nvar ok = 1\n"), 0o644)
+	// the same directory through a Decorator that has a (syntax-based) identifier resolver
+	if rp, rerr := decorator.NewDecoratorWithImports(token.NewFileSet(), "example.com/p", goast.New()).ParseDir(dir, nil, 0); rerr == nil {
+		for _, p := range rp {
+			for _, f := range p.Files {
+				var buf bytes.Buffer
+				_ = decorator.NewRestorerWithImports("example.com/p", guess.New()).Fprint(&buf, f)
+			}
+		}
+	}
 	pkgs, err := decorator.ParseDir(token.NewFileSet(), dir, nil, 0)
 	if err != nil {
 		return
